@@ -237,7 +237,9 @@ EXTRA_NOTES = {
     'C04': 'Bounded stand-ins: chunk-independence checked directly on a parser made by its real __init__ for 2-3 symbolic reads of up to 8 bytes '
            '(loops unrolled, compared with the splitter); message transports (quart / aiohttp / websockets) for three messages with abstract sockets.',
     'C05': 'Bounded stand-in for queue operations without a contract of their own (frame condition): none exists on the unchanged tree. '
-           'The waiting branch of QueuePeekable.peek is verified against the assumed asyncio.Queue internals.',
+           'The waiting branch of QueuePeekable.peek is verified against the assumed asyncio.Queue internals. send_priority_frame (head insertion '
+           'preserving the order of everything else) is proved for every queue content with two loop contracts over a list of symbolic length; '
+           'its bounded instances (queue length <= 5) remain as a cross-check.',
     'C06': 'Bounded stand-in: "never parked waiting for credit while granted credit is unused" (safety form of the liveness half) for the '
            'observable-backed publishers, driven through their public operations with loops unrolled.',
     'C13': 'The allocator is additionally proved by complete unrolling on the reduced id spaces 3, 7, 15 (no loop contract needed).',
@@ -245,7 +247,8 @@ EXTRA_NOTES = {
            'independent of the container that retains requests.',
     'C20': 'Bounded stand-in for the lost-wake-up clause as under C06.',
 }
-GENERAL = (' Thorough tier additionally runs a CPython differential of the engine (real functions on concrete inputs, both codec back ends) and '
+GENERAL = (' The pre-states the endpoint contracts start from are established by the real constructors (contracts/c_21_construction.py: '
+           'RSocketServer/RSocketClient/RSocketBase.__init__, _reset_internals, the stream sources, the Rx subscribers). Thorough tier additionally runs a CPython differential of the engine (real functions on concrete inputs, both codec back ends) and '
            'mutation canaries (source mutants that must turn this check red); both guard the trusted base and the contracts\' sensitivity and never decide the property.')
 
 
